@@ -264,6 +264,7 @@ func (ip *interp) file(file string, st *State) error {
 			if err != nil {
 				if errors.Is(err, errMissingTTL) {
 					ip.den.Err, ip.den.ErrFile, ip.den.ErrItem = "missing-ttl", file, i
+					f.TTLUncertain, f.NoTTLState = true, true // the renderer keeps the line shape
 					ip.fact(file, len(items), i, f)
 					return nil
 				}
